@@ -2262,14 +2262,34 @@ XSLTEngineImpl::cloneToResultTree(
             {
                 // An attribute in a namespace needs its prefix declared
                 // on the element it is copied to.  If nothing declares
-                // the prefix there, add the declaration.
+                // the prefix there, add the declaration.  If the prefix
+                // is bound to another namespace there, the attribute
+                // needs another prefix.
                 const XalanDOMString&   theNamespace = node.getNamespaceURI();
                 const XalanDOMString&   thePrefix = node.getPrefix();
 
-                if (theNamespace.empty() == false &&
+                const bool  fPrefixed =
+                    theNamespace.empty() == false &&
                     thePrefix.empty() == false &&
-                    equals(thePrefix, DOMServices::s_XMLString) == false &&
-                    getResultNamespaceForPrefix(thePrefix) == 0)
+                    equals(thePrefix, DOMServices::s_XMLString) == false;
+
+                const XalanDOMString* const     theBoundNamespace =
+                    fPrefixed == true ? getResultNamespaceForPrefix(thePrefix) : 0;
+
+                if (theBoundNamespace != 0 &&
+                    equals(*theBoundNamespace, theNamespace) == false)
+                {
+                    createFixedUpResultAttribute(
+                        *m_executionContext,
+                        node.getLocalName(),
+                        theNamespace,
+                        node.getNodeValue());
+
+                    break;
+                }
+
+                if (fPrefixed == true &&
+                    theBoundNamespace == 0)
                 {
                     const ECGetCachedString     theGuard(*m_executionContext);
 
